@@ -347,6 +347,38 @@ def make_inner(storage, ctl):
     return GatedInner()
 
 
+_tl = threading.local()
+
+
+class GatedLock:
+    """Stands in for ThreadedHistory._lock.  When a consumer's `in_executor` job
+    leaves the lock region and the harness has armed a pause for that consumer,
+    the worker thread stops right there (after `new_items`/`done` were read,
+    before anything else of load() runs) until the harness lets it go on - so
+    loader steps can be placed between the locked read and what follows it."""
+
+    def __init__(self):
+        self._l = threading.Lock()
+
+    def acquire(self, *a, **kw):
+        return self._l.acquire(*a, **kw)
+
+    def release(self):
+        self._l.release()
+
+    def __enter__(self):
+        self._l.acquire()
+        return self
+
+    def __exit__(self, *a):
+        self._l.release()
+        ex = getattr(_tl, "consumer", None)
+        if ex is not None and ex.pause is not None:
+            p, ex.pause = ex.pause, None
+            p["paused"].set()
+            p["resume"].wait(10)
+
+
 class LoggingExecutor:
     """The consumer's executor: remembers the names of the submitted callables
     (`in_executor` = the locked read, `<lambda>` = event.wait), which tells the
@@ -356,10 +388,21 @@ class LoggingExecutor:
         from concurrent.futures import ThreadPoolExecutor
         self.ex = ThreadPoolExecutor(max_workers=8)
         self.log = []
+        self.pause = None
 
     def submit(self, fn, *a, **kw):
-        self.log.append(getattr(fn, "__name__", "?"))
-        return self.ex.submit(fn, *a, **kw)
+        name = getattr(fn, "__name__", "?")
+        self.log.append(name)
+        if name != "in_executor":
+            return self.ex.submit(fn, *a, **kw)
+
+        def job():
+            _tl.consumer = self
+            try:
+                return fn(*a, **kw)
+            finally:
+                _tl.consumer = None
+        return self.ex.submit(job)
 
     def shutdown(self, wait=True, **kw):
         self.ex.shutdown(wait=wait, **kw)
@@ -394,12 +437,16 @@ class Replayer:
                 return False
             time.sleep(0.0002)
 
-    def replay(self, S0, labels):
-        """-> (observations, info) ; info: appends with the loader phase they fell in, storage at each consumer start"""
+    def replay(self, S0, labels, holds=()):
+        """-> (observations, info) ; info: appends with the loader phase they fell in, storage at each consumer start.
+        holds: indices of CRead labels whose consumer is stopped right after its locked read until the
+        run of loader steps following it is over (those steps get observation None)."""
         from prompt_toolkit.history import ThreadedHistory
         ctl = Ctl()
         inner = make_inner([unS(x) for x in S0], ctl)
         th = ThreadedHistory(inner)
+        th._lock = GatedLock()
+        held = [None]
         cons = []
         appender = [None]
         obs = []
@@ -424,7 +471,7 @@ class Replayer:
             return "quiescent"
 
         try:
-            for lab in labels:
+            for j, lab in enumerate(labels):
                 k = lab[0]
                 if k == 2:
                     idx = len(cons)
@@ -468,10 +515,30 @@ class Replayer:
                             break
                         if time.time() - t0 > 5:
                             raise Hang()
+                    if held[0] is not None:
+                        if j + 1 < len(labels) and labels[j + 1][0] == 1:
+                            obs.append(None)
+                            continue
+                        c, p, n0 = held[0]
+                        held[0] = None
+                        p["resume"].set()
+                        ex = c["ex"]
+                        if not self.pump(c["loop"], lambda c=c, ex=ex, n0=n0: c["task"].done() or (ex.reads() > n0 and ex.log[-1] != "in_executor")):
+                            raise Hang()
                 elif k == 3:
                     c = cons[lab[1]]
                     ex = c["ex"]
                     n0 = ex.reads()
+                    if j in holds:
+                        p = {"paused": threading.Event(), "resume": threading.Event()}
+                        ex.pause = p
+                        if not self.pump(c["loop"], lambda c=c, p=p: p["paused"].is_set() or c["task"].done()):
+                            raise Hang()
+                        if p["paused"].is_set():
+                            held[0] = (c, p, n0)
+                            obs.append(None)
+                            continue
+                        ex.pause = None
                     # one read is over when a later job (the next event.wait) has been submitted, or load() ended
                     cond = lambda c=c, ex=ex, n0=n0: c["task"].done() or (ex.reads() > n0 and ex.log[-1] != "in_executor")  # noqa
                     if not self.pump(c["loop"], cond):
@@ -495,6 +562,11 @@ class Replayer:
             info["hang"] = True
             obs.append([-98])
         finally:
+            if held[0] is not None:
+                held[0][1]["resume"].set()
+            for c in cons:
+                if c["ex"].pause is not None:
+                    c["ex"].pause = None
             ctl.release_all()
             if th._load_thread is not None:
                 th._load_thread.join(5)
@@ -739,6 +811,45 @@ def _main(chk, pr, runner, rep):
         if i % 97 == 0:
             chk.sample({"family": "schedule", "S0": [unS(x) for x in s0], "schedule": " ".join(label_name(l) for l in labels),
                         "yielded": [[unS(x) for x in c[0]] for c in obs[-1][3]] if len(obs[-1]) > 3 else None}, limit=12)
+    # ---- kind 6: the same schedules with every read that is followed by loader steps HELD at the end of
+    # its lock region while those steps run (what follows the lock region in load() sees the later state)
+    nheld = 0
+    for s0, labels in scheds:
+        if nheld >= (2500 if chk.tier == "thorough" else 120) or rep.hangs >= 8:
+            break
+        holds = [j for j in range(len(labels) - 1) if labels[j][0] == 3 and labels[j + 1][0] == 1]
+        if not holds:
+            continue
+        mask = [1] * len(labels)
+        for j in holds:
+            mask[j] = 0
+            k = j + 1
+            while k + 1 < len(labels) and labels[k + 1][0] == 1:
+                mask[k] = 0
+                k += 1
+        obs, info = with_watchdog(lambda: rep.replay(s0, labels, holds=set(holds)), 60)
+        if info["race"]:
+            continue
+        if not info["hang"] and [o is None for o in obs] != [m == 0 for m in mask]:
+            continue        # a read could not be held (load() already over): nothing new in this case
+        nheld += 1
+        obs_seen = [o for o in obs if o is not None]
+        case = [6, s0, labels, mask]
+        i = len(cases)
+        cases.append(case)
+        impl_results.append(obs_seen)
+        metas.append({"kind": "threaded", "gen": "schedule_held_reads"})
+        chk.count_case(case, True)
+        bad = oracle_threaded(s0, labels, obs_seen, info) if obs_seen else None
+        if bad:
+            oracle_bad.add(i)
+            clause, tags, detail = bad
+            tags = dict(tags, held_read=True)
+            chk.violation("oracle", clause + " (" + detail + "; S0=%r schedule=%s, reads at %r held after their lock region while the following loader steps run)" % (
+                [unS(x) for x in s0], " ".join(label_name(l) for l in labels), holds),
+                tags, {"case": sx_norm(case), "observed_last": sx_norm(obs_seen[-1]), "clause": clause, "holds": holds,
+                       "how": "as kind 2, but ThreadedHistory._lock is a GatedLock: the consumer's executor job is stopped when it leaves the lock region; harness/c13.py Replayer.replay(holds=...)"})
+    dist["schedules_with_held_reads"] = nheld
     dist["schedule_appends_when"] = whens
     dist["schedules_skipped_first_read_race"] = races
     if races > max(5, len(scheds) // 10):
@@ -761,6 +872,8 @@ def _main(chk, pr, runner, rep):
             return {"op": "FileHistory"}
         if c[0] == 5:
             return {"op": "utf8_decode"}
+        if c[0] == 6:
+            return {"op": "ThreadedHistory.held_read"}
         for j, (x, y) in enumerate(zip(a, m if isinstance(m, list) else [])):
             if x != y:
                 return {"op": "ThreadedHistory." + label_name(c[2][j]), "step": j}
@@ -858,6 +971,22 @@ def replay(data):
             rc = 1 if bad else 0
             m = run_model("c13", [case])[0]
             print("model agrees" if m == sx_norm(obs) else "model differs")
+        finally:
+            rep.close()
+    elif case[0] == 6:
+        rep = Replayer()
+        try:
+            holds = set(j for j in range(len(case[2]) - 1) if case[3][j] == 0 and case[2][j][0] == 3)
+            obs, info = rep.replay(case[1], case[2], holds=holds)
+            print("S0=%r schedule=%s held reads at %r" % ([unS(x) for x in case[1]], " ".join(label_name(l) for l in case[2]), sorted(holds)))
+            seen = [o for o in obs if o is not None]
+            for l, o in zip(case[2], obs):
+                print("  %-9s %s" % (label_name(l), "(held)" if o is None else "cache=%r loaded=%r yielded=%r" % ([unS(x) for x in o[1]], o[2], [[unS(x) for x in c[0]] for c in o[3]]) if len(o) > 3 else o))
+            bad = oracle_threaded(case[1], case[2], seen, info) if seen else None
+            print("ORACLE FAILS: %s (%s) tags=%r" % (bad[0], bad[2], bad[1]) if bad else "oracle ok")
+            rc = 1 if bad else 0
+            m = run_model("c13", [case])[0]
+            print("model agrees" if m == sx_norm(seen) else "model differs")
         finally:
             rep.close()
     elif case[0] == 5:
